@@ -499,7 +499,13 @@ def _await_descriptor_upload(tor_protocol, onion, progress, await_all_uploads):
     # the first 'yield' should be the add_event_listener so that a
     # caller can do "d = _await_descriptor_upload()", then add the
     # service.
-    yield tor_protocol.add_event_listener('HS_DESC', hs_desc)
+    try:
+        yield tor_protocol.add_event_listener('HS_DESC', hs_desc)
+    except Exception:
+        # abandoned before Tor acknowledged the subscription: the
+        # listener is registered already, so take it out again
+        yield tor_protocol.remove_event_listener('HS_DESC', hs_desc)
+        raise
 
     # if the control connection goes away no further HS_DESC event can
     # arrive: fail the wait instead of waiting forever
